@@ -190,6 +190,20 @@ CHECKS['C10'] = dict(
     technique='Coq proof (list/tree reasoning over the framing model) + byte-for-byte HTTP correspondence + independent box walker oracle',
     design='C04-C03-C10')
 
+CHECKS['C04'] = dict(
+    text='Theorems (unbounded: any depth, length and payloads): C04_parse_encode (parse (enc forest) = forest for every well-formed box '
+         'forest over the container table with 32-bit sizes), C04_encode_parse (every byte string the parser accepts re-encodes to '
+         'exactly those bytes), C04_be32 / C04_be64 (integer fields). Tied to /repo by differential runs of Mp4Atom.load/encode (eager '
+         'and lazy) against the model on fixture boxes and generated forests (tree shape and bytes). The remaining clauses are decided '
+         'by the oracle on the real library: byte-exact round trip of every fixture box in both modes, identical field values eager '
+         'vs lazy, JSON form and back, sizes nest after edit scripts (independent walker).',
+    note=TB + 'PARTIAL: the typed field codecs of mp4.py (tfhd, trun, senc, avcC, esds, sample entries ...) are not modelled in Coq - '
+         'every non-container box is an opaque payload, exactly the quantity the framing theorems are about; their round trip is '
+         'decided on the fixture boxes by the oracle only. 64-bit / to-end size forms are outside the model (known finding size-forms).',
+    technique='Coq proof (induction over the parser fuel with a weight measure; list slicing arithmetic) + differential correspondence + '
+              'oracle with an independent box walker',
+    design='C04-C03-C10')
+
 NOT_YET = {
 }
 
